@@ -87,15 +87,15 @@ func main() {
 			}
 		}
 		extra := map[string]any{
-			"packages_loaded":   len(p.ByPath),
-			"library_packages":  len(p.LibPackages()),
-			"control_packages":  len(p.ControlPackages()),
-			"functions_total":   len(p.AllFuncs),
-			"load_s":            p.LoadSecs,
-			"goos":              *goos,
-			"goarch":            *goarch,
-			"callgraph":         map[bool]string{false: "vta", true: "cha"}[*useCHA],
-			"does_not_cover":    info.DoesNotCover,
+			"packages_loaded":  len(p.ByPath),
+			"library_packages": len(p.LibPackages()),
+			"control_packages": len(p.ControlPackages()),
+			"functions_total":  len(p.AllFuncs),
+			"load_s":           p.LoadSecs,
+			"goos":             *goos,
+			"goarch":           *goarch,
+			"callgraph":        map[bool]string{false: "vta", true: "cha"}[*useCHA],
+			"does_not_cover":   info.DoesNotCover,
 		}
 		for k, v := range info.Extra {
 			extra[k] = v
